@@ -204,6 +204,9 @@ def run(repo, rep, tier):
         rep.ok("R-C04-1", f"{SPECPART_C}:{cf.line(count_store[0])} ptnghb", cf.text(count_store[0]), "slot 8 = k+1")
     layout(repo, rep, "R-C04-2")
     sweeps(repo, rep, "R-C04-3")
+    rep.rule("R-C04-5", "(shared with C18) the neighbour table in use was built for the current grid shape: the shape guard of partinit "
+                        "implies both extents are unchanged, and the cached shape / nspec are set before ptnghb()")
+    cnative.statics(repo, rep, "R-C04-5")
     rep.rule("R-C04-4", "every Python caller hands the native routine a C-contiguous float32 array (the layout R-C04-2 "
                         "assumes; the wrapper does not check flags)")
     from .shared import contiguity
